@@ -22,3 +22,7 @@ package variables
 //@   nomod
 //@ func Container.Has
 //@   nomod
+
+//@ func FromMap
+//@   nomod
+//@   ensures result != nil
